@@ -386,6 +386,11 @@ def r18_6(run):
     us = [CSE(run), run.idx.find_method(tc, 'create_socks_endpoint'), run.idx.find_method(run.idx.cls('TorClientEndpoint', MOD), 'connect')]
     k = dropped_deferreds(run, 'R18.6', us, 'SOCKS endpoint selection')
     run.floor('R18.6', 'suspension points in the SOCKS selection coroutines', k, 6)
+    # the configured listeners are looked at only once the configuration view is complete: before that SocksPort reads as empty
+    # (or raises) and a port Tor already has is "added" again
+    required_await(run, 'R18.6', us[1], lambda v: (dotted(v) or '').endswith('post_bootstrap'),
+                   lambda a: isinstance(a, ast.Attribute) and dotted(a) == 'self.SocksPort',
+                   'the configuration bootstrap', 'the configured SOCKS ports are read', 'await-view-before-ports')
 
 
 def r18_7(run):
@@ -443,6 +448,7 @@ RULES = [
 from ..selftest import M  # noqa: E402
 F, FC = 'txtorcon/endpoints.py', 'txtorcon/torconfig.py'
 MUTANTS = [
+    M('ports-read-before-bootstrap', FC, "        yield self.post_bootstrap\n\n        if socks_config is None:", "        if socks_config is None:", ['R18.6']),
     M('default-endpoint-guard-negated', 'txtorcon/controller.py', "        if self._socks_endpoint is None:\n            self._socks_endpoint = yield _create_socks_endpoint", "        if self._socks_endpoint is not None:\n            self._socks_endpoint = yield _create_socks_endpoint", ['R18.7']),
     M('default-endpoint-not-returned', 'txtorcon/controller.py', "            self._socks_endpoint = yield _create_socks_endpoint(self._reactor, self._protocol)\n        return self._socks_endpoint", "            self._socks_endpoint = yield _create_socks_endpoint(self._reactor, self._protocol)\n        return None", ['R18.7']),
     M('wanted-never-bound', FC, "            wanted = socks_config.split()[0]\n            if not any([port", "            if not any([port", ['R-X']),
